@@ -12,7 +12,7 @@ TECH = "deterministic simulation with fault injection: seeded search over schedu
 CLAIMED = {
     "C08": (
         "fault_enumeration",
-        "Seeded deterministic simulation of 2-3 real GenericCloud nodes plus an outside adversary. The grid victim state (7) x first-datagram length 0..=80 x structured first byte (16) is enumerated once per 9072 runs; sequences of up to 50 forged datagrams (structured, truncated / length-corrupted / wrong-party copies of recorded handshake, data, node-info and rotation datagrams, random up to 65535 bytes) are drawn from the seed. Oracles: no unwind out of any node step, no state change and no device write for datagrams that cannot verify (decided by an independent reference verifier over the bytes the receiver really parses, including the stale tail of its receive buffer), nodes alive and a genuine probe still crossing afterwards. A clean batch is evidence over the sampled sequences, not a proof.",
+        "Seeded deterministic simulation of 2-3 real GenericCloud nodes plus an outside adversary. The grid victim state (7) x first-datagram length 0..=80 x structured first byte (16) is enumerated once per 9072 runs; sequences of up to 50 forged datagrams (structured, truncated / length-corrupted / wrong-party copies of recorded handshake, data, node-info and rotation datagrams, random up to 65535 bytes) are drawn from the seed. Oracles: no unwind out of any node step, no state change (peers, pending handshakes with their stages and retry counters, claim table, own addresses, reconnect entries) and no device write for datagrams that cannot verify (decided by an independent reference verifier over the bytes the receiver really parses, including the stale tail of its receive buffer), nodes alive and a genuine probe still crossing afterwards. A clean batch is evidence over the sampled sequences, not a proof.",
         "Trusted: the simulator seams (SimSocket/SimDevice/SimClock, verif_step as one iteration of run()), ring, the reference handshake verifier. Process aborts that are not unwinds (stack overflow, OOM) would kill the batch and surface as a harness error, not as a violation. Build has overflow checks and debug assertions on.",
         "DESIGN.md section 8, C08",
         "fault enumeration over (state x length x first byte) + seeded adversary sequences",
@@ -33,7 +33,7 @@ CLAIMED = {
     ),
     "C14": (
         "exploration",
-        "Meshes: random connected labelled bootstrap graphs on 2-6 nodes (thorough: up to 8) with per-edge dial orientation, address-filtering NAT per node, nodes behind translating NATs with port forwards (seen and reached under a public address only), 0-9 advertised unreachable addresses per node, staggered starts, reliable network. Oracle: every pair mutually connected within (diameter+2) announcement intervals of 90 s + 60 s (10 intervals with NAT) and still 400 s later. Self-dial: node 0 behind a translating NAT; its datagrams to its public address come back with source in {own socket, public address, third address}; it dials the address because it is configured, advertised, or only listed by peers; alone and inside a 2-3 node mesh. Invariant after every step: no node lists itself as a peer (by node id or by an address that reaches it); an address listed under the node's identity is adopted at once, must be adopted when peers reach the node through it, and is not dialled while adopted.",
+        "Meshes: random connected labelled bootstrap graphs on 2-6 nodes (thorough: up to 8) with per-edge dial orientation, address-filtering NAT per node, nodes behind translating NATs with port forwards (seen and reached under a public address only), 0-9 advertised unreachable addresses per node, staggered starts, 15 % plain meshes, reliable network. Oracle: every pair mutually connected within (diameter+2) announcement intervals of 90 s + 60 s (10 intervals with NAT) and still 400 s later. Self-dial: node 0 behind a translating NAT; its datagrams to its public address come back with source in {own socket, public address, third address}; it dials the address because it is configured, advertised, or only listed by peers; alone and inside a 2-3 node mesh. Invariant after every step: no node lists itself as a peer (by node id or by an address that reaches it); an address listed under the node's identity is adopted at once, must be adopted when peers reach the node through it, and is not dialled while adopted.",
         "Trusted: simulator seams, the NAT models (address filtering with 300 s mappings as in the in-tree MockSocket; translating NAT with port forward; internal addresses unroutable from outside). Graph space is sampled, not enumerated.",
         "DESIGN.md section 8, C14",
         "seeded search over bootstrap graphs x NAT kinds x hair-pin source addresses; bounded liveness + invariant",
@@ -82,28 +82,28 @@ CLAIMED = {
     ),
     "C02": (
         "exploration",
-        "Node level: 2-3 real tun nodes with cipher lists from {default, aes128, aes256, chacha20, plain, plain+aes256, chacha20+aes128} (plain on none / one / both ends), a never-answering configured peer at node 0; 10-60 marked frames per run, the first of length (i mod 301) so that every length 0..=300 occurs once per 301 runs, others up to 9000 bytes; after each frame one sealed datagram on the wire (data or node info) is tampered with: one bit flipped in key id / counter / ciphertext / tag, truncation at any length, reflection to its sender, presentation on another connection of a 3-node mesh with matching source address, extension; unsealed payload from the address of a pending handshake; datagrams sealed by the outsider under guessable keys (all-zero, all-ones) for every cipher, key slot and nonce half. Oracles: every interface write is byte-identical to the frame read at the sending peer and stems from an unmodified copy of its datagram; a tampered datagram causes no write, no state change, no reply; two ticks later untouched frames are delivered exactly once on every connection; the complete wire capture of pairs that did not both enable plain contains no 16-byte window of payload or of any node id.",
+        "Node level: 2-3 real tun nodes with cipher lists from {default, aes128, aes256, chacha20, plain, plain+aes256, chacha20+aes128} (plain on none / one / both ends), a never-answering configured peer at node 0; 10-60 marked frames per run, the first of length (i mod 301) so that every length 0..=300 occurs once per 301 runs, others up to 9000 bytes; after each frame one sealed datagram on the wire (data or node info) is tampered with: one bit flipped in key id / counter / ciphertext / tag, truncation at any length, reflection to its sender, presentation on another connection of a 3-node mesh with matching source address, extension; unsealed payload from the address of a pending handshake; datagrams sealed by the outsider under guessable keys (all-zero, all-ones) for every cipher, key slot and nonce half; in 30 % of the runs a frame is sealed while the path is cut, its sender crashes and comes back, and the held-back datagram of the previous connection arrives after the new handshake; in 15 % of the runs the last node is told to dial an address that leads back to itself (hair-pin with crosswise source addresses) and reads packets for its own address. Oracles: every interface write is byte-identical to the frame read at the sending peer and stems from an unmodified copy of its datagram; a tampered datagram causes no write, no state change, no reply; no node ever writes a frame for a datagram it sealed itself; two ticks later untouched frames are delivered exactly once on every connection; the complete wire capture of pairs that did not both enable plain contains no 16-byte window of payload or of any node id.",
         "Trusted: simulator seams and the harness' attribution of wire datagrams (origin genuine / tampered, cause interface read). Bit positions and truncation lengths are sampled per region, not enumerated per datagram; encoded claims are not searched for separately (they travel in the same sealed node-info message as the node id).",
         "DESIGN.md section 8, C02",
         "seeded traffic with one tampering per frame; attribution of every interface write + wire scan",
     ),
     "C03": (
         "exploration",
-        "Pair level (L1): an established pair of real PeerCrypto objects for each cipher. A seed-indexed sweep enumerates all schedules of length 5 (thorough: 7) over {seal next, deliver datagram 1..5 (again), tick receiver}; random histories of 20-400 steps add sender ticks, delivery/loss of rotation messages and fast-forwards across key rotations. Oracle computed from the recorded history only (no access to the window variables): a genuine datagram with counter c under key generation g is rejected iff something with counter >= c was accepted under g before the receiver's previous tick, accepted otherwise while the receiver still holds g under that key id, and opens to the sealed bytes. Both directions of error are reported (replay hole, loss of in-window traffic).",
+        "Pair level (L1): an established pair of real PeerCrypto objects for each cipher. A seed-indexed sweep enumerates all schedules of length 5 (thorough: 7) over {seal next, deliver datagram 1..5 (again), tick receiver}; random histories of 20-400 steps add sender ticks, delivery/loss of rotation messages and fast-forwards across key rotations. Oracle computed from the recorded history only (no access to the window variables): a genuine datagram with counter c under key generation g is rejected iff something with counter >= c was accepted under g before the receiver's previous tick, accepted otherwise while the receiver still holds g under that key id, and opens to the sealed bytes. Both directions of error are reported (replay hole, loss of in-window traffic). Node level (every tenth run after the sweep): two real nodes, every captured data datagram is replayed 0-5 housekeeping rounds after its first delivery, in 30 % of the cases after the captured first handshake message was replayed to the receiver (which opens a handshake next to the established connection); a replay arriving two or more housekeeping rounds of the receiver after the first delivery must not be written to the interface again.",
         "Trusted: the L1 driver (sim/src/pair.rs replicates the node's per-address routing of handshake objects), Seal/KeyRotated probes for attributing datagrams to key generations. A 'tick' is one call of every_second; the node-level replay of captured data datagrams k rounds later is part of C09.",
         "DESIGN.md section 8, C03",
         "seed-indexed exhaustive sweep of short schedules + random histories; history oracle",
     ),
     "C04": (
         "exploration",
-        "Pair level. Two thirds of the runs: whole connection lifetimes of a real PeerCrypto pair - handshake by one side or both at once with reordered/duplicated datagrams, 300-1500 ticks per end (thorough: up to 4000; 120 ticks per rotation cycle), rotation messages lost/duplicated/reordered/delayed, a probe sealed in both directions after every step, nonce starts shaped to sit below carry boundaries of 1-6 bytes, the counter placed 1-40 seals below the 56 bit limit. Oracle over the seal log (every encrypt call): no (key, nonce) pair twice, strictly increasing per (end, key), different top bytes at the two ends of a key, every key starts exactly at the generator's bytes and its first seal is start+1, past the 56 bit limit the peer opens nothing and below it everything. One third of the runs walk the two-party handshake schedules of C05 (exhaustive sweep of length 4 / 6, then random schedules with forced re-dials) under the same seal-log oracles plus: the two ends of one key install it with opposite nonce halves. One lifetime in fifty is longer than 128 rotation cycles.",
+        "Pair level. Two thirds of the runs: whole connection lifetimes of a real PeerCrypto pair - handshake by one side or both at once with reordered/duplicated datagrams, 300-1500 ticks per end (thorough: up to 4000; 120 ticks per rotation cycle), rotation messages lost/duplicated/reordered/delayed, a probe sealed in both directions after every step, nonce starts shaped to sit below carry boundaries of 1-6 bytes, the counter placed 1-40 seals below the 56 bit limit with ticks of either end between the seals that cross it. Oracle over the seal log (every encrypt call): no (key, nonce) pair twice, strictly increasing per (end, key), different top bytes at the two ends of a key, every key starts exactly at the generator's bytes and its first seal is start+1, past the 56 bit limit the peer opens nothing and below it everything. One third of the runs walk the two-party handshake schedules of C05 (exhaustive sweep of length 4 / 6, then random schedules with forced re-dials) under the same seal-log oracles plus: the two ends of one key install it with opposite nonce halves. One lifetime in fifty is longer than 128 rotation cycles.",
         "Trusted: the Seal/NonceStart probes (src/crypto/core.rs, guarded) and the key fingerprint (AEAD tag of the empty message under the reserved all-ones nonce). Unpredictability is checked as 'equals what the generator handed out', not statistically.",
         "DESIGN.md section 8, C04",
         "seeded lifetimes with shaped nonce starts and counter placement; global seal-log uniqueness",
     ),
     "C06": (
         "fault_enumeration",
-        "Pair level: all 225 pairs of non-empty subsets of {plain, aes128, aes256, chacha20} are enumerated (run i takes pair i mod 225); speeds from the grid {0, 1, 50, 50, 400, 3.4e38} per cipher and side, 2-4 variants per run with independent list orders and initiator in {A, B, both at once}, in 40 % of the runs one in-flight edit of the cipher list (algorithm id, speed byte, list length). Oracle: independent reference selection; both ends equal and among the maximisers of min(speed_A, speed_B); clean failure iff no common cipher; never plain without mutual consent; the same cipher under every order/initiator; an edited list is rejected without state change; established ends open each other's datagrams.",
+        "Pair level: all 225 pairs of non-empty subsets of {plain, aes128, aes256, chacha20} are enumerated (run i takes pair i mod 225); speeds from the grid {0, 1, 50, 50, 400, 3.4e38, 0.4, 0.6, 99.6, 100.2, 100.4, 100.5} per cipher and side, 2-4 variants per run with independent list orders and initiator in {A, B, both at once}, in 40 % of the runs one in-flight edit of the cipher list (algorithm id, speed byte, list length). Oracle: independent reference selection; both ends equal and among the maximisers of min(speed_A, speed_B); clean failure iff no common cipher; never plain without mutual consent; the same cipher under every order/initiator; an edited list is rejected without state change; established ends open each other's datagrams.",
         "Trusted: L1 driver, prescribed speeds through the guarded hook in Crypto::new (the real measurement is replaced). The empty algorithm list means 'defaults' to the configuration parser and is therefore the 3-cipher set; NaN speeds are excluded as in the property.",
         "DESIGN.md section 8, C06",
         "enumeration of subset pairs x seeded speeds, orders, initiators and in-flight edits; reference model + metamorphic relation",
@@ -131,7 +131,7 @@ CLAIMED = {
     ),
     "C18": (
         "exploration",
-        "Node level: 1-3 key pairs per run produced by the real key generation - random keys from seeds with 0-4 leading zero bytes (optionally searched until the public key starts with a zero byte), password keys from a dictionary incl. empty, blank, unicode, NUL and 1 KiB passwords, each derived twice - and 2-5 real nodes configured from the printed text (private key with or without public key; password nodes by password or by the printed key, so one password appears in two forms), trusted sets any subset of the printed public keys. Oracles: key generation and public_key_from_private_key agree and never fail on generated text; every node starts; after 12 s on a reliable network exactly the mutually trusting pairs (by key material) are connected; a crashed and restarted node uses the same public key as before and as printed.",
+        "Node level: 1-3 key pairs per run produced by the real key generation - random keys from seeds with 0-4 leading zero bytes (optionally searched until the public key starts with a zero byte), password keys from a dictionary incl. empty, blank, unicode, NUL and 1 KiB passwords, each derived twice - and 2-5 real nodes configured from the printed text (private key with or without public key; password nodes by password or by the printed key, so one password appears in two forms; a leftover password next to a private key; a leftover public-key entry of another key pair next to a password), trusted sets any subset of the printed public keys. Oracles: key generation and public_key_from_private_key agree and never fail on generated text; every node starts; after 12 s on a reliable network exactly the mutually trusting pairs (by key material) are connected; a crashed and restarted node uses the same public key as before and as printed.",
         "Trusted: simulator seams; ring's Ed25519 as the reference for what a seed's public key is. The text codec sweep over all byte strings of length <= 2 of the quantifier is a pure-function sweep and not part of this check; what is decided here is the multi-node / multi-run part.",
         "DESIGN.md section 8, C18",
         "seeded key material with shaped seeds; mesh forms iff trust by key material",
